@@ -127,9 +127,11 @@ def run_pipeline(tier, seed, log):
         # slow clients: the handshake line arrives 12 s after the connection, a command 12 s after the previous one
         directed.append([CN(0), {"c": "pause", "secs": 12}, HS(0), Q(0, v=0), {"c": "pause", "secs": 12}, Q(0, v=2), D(0), STOP])
         directed.append([C(0, True), {"c": "cliwait", "s": 0, "secs": 20}, Q(0, v=0), D(0, "exit"), STOP])
+    # an idle client is still connected a good second after the stop: it is still served, the task is still pending
+    directed.append([C(0), Q(0, v=0), STOP, {"c": "pause", "secs": 1.6}, Q(0, v=0), D(0)])
     for tr in ("unix", "tcp"):
-        for d in directed:
-            s = [{"c": "serve", "tr": tr}] + d
+        for n, d in enumerate(directed):
+            s = [dict({"c": "serve", "tr": tr}, **({"stale": True} if tr == "unix" and n % 3 == 1 else {}))] + d
             if json.dumps(s) not in {json.dumps(x) for x in scripts}:
                 scripts.append(s)
     log("sockets: %d distinct event orders from the specification, running %d on real sockets" % (len(seen), len(scripts)))
